@@ -415,3 +415,72 @@ func enumEval(f *ssa.Function, callee string, s string) []*ssa.Return {
 	}
 	return rets
 }
+
+// opTree renders the operator tree of a value with parameter and local names erased, so that the
+// same computation in sibling functions compares equal.
+func opTree(v ssa.Value, d int) string {
+	if d > 8 || v == nil {
+		return "…"
+	}
+	switch x := v.(type) {
+	case *ssa.Const:
+		if x.Value == nil {
+			return "nil"
+		}
+		return x.Value.ExactString()
+	case *ssa.Parameter, *ssa.FreeVar:
+		return "$"
+	case *ssa.Convert:
+		return "conv:" + normBasic(x.Type().Underlying().String()) + "(" + opTree(x.X, d+1) + ")"
+	case *ssa.ChangeType:
+		return opTree(x.X, d+1)
+	case *ssa.BinOp:
+		return "(" + opTree(x.X, d+1) + x.Op.String() + opTree(x.Y, d+1) + ")"
+	case *ssa.UnOp:
+		if x.Op == token.MUL {
+			if _, n, ok := fieldOf(x.X); ok {
+				return "." + n
+			}
+			if al, ok := x.X.(*ssa.Alloc); ok {
+				for _, st := range storesTo(al) {
+					return opTree(st.Val, d+1)
+				}
+			}
+			return "*" + opTree(x.X, d+1)
+		}
+		return x.Op.String() + opTree(x.X, d+1)
+	case *ssa.Field:
+		if _, n, ok := fieldOf(x); ok {
+			return "." + n
+		}
+	case *ssa.FieldAddr:
+		if _, n, ok := fieldOf(x); ok {
+			return "&." + n
+		}
+	case *ssa.Alloc:
+		for _, st := range storesTo(x) {
+			return "&(" + opTree(st.Val, d+1) + ")"
+		}
+		return "&local"
+	case *ssa.Call:
+		name := "call"
+		if fn := calleeFunc(&x.Call); fn != nil {
+			name = fn.Name()
+		}
+		var as []string
+		for _, a := range x.Call.Args {
+			as = append(as, opTree(a, d+1))
+		}
+		return name + "(" + strings.Join(as, ",") + ")"
+	case *ssa.Phi:
+		var es []string
+		for _, e := range x.Edges {
+			es = append(es, opTree(e, d+1))
+		}
+		sort.Strings(es)
+		return "phi[" + strings.Join(es, "|") + "]"
+	case *ssa.Extract:
+		return opTree(x.Tuple, d+1) + "#" + fmt.Sprint(x.Index)
+	}
+	return "?" + v.Name()
+}
